@@ -190,13 +190,30 @@ def run(chk):
         chk.check(src(fmr.value) == "f'{var.index:04X}'", "R4", f"{E}:export_record | section format", ex.loc(fmr), src(fmr.value))
 
     # ------------------------------------------------------------------ R5 index predicates partition
-    preds = {n.name: n for n in ast.walk(ex.node) if isinstance(n, ast.FunctionDef) and n is not ex.node and len(n.args.args) == 1 and n.args.args[0].arg == "x"}
+    preds = {n.name: n for n in ast.walk(ex.node) if isinstance(n, ast.FunctionDef) and n is not ex.node and len(n.args.args) == 1
+             and any(isinstance(r_, ast.Return) for r_ in ast.walk(n)) and not any(isinstance(c_, ast.Call) and dotted(c_.func) in ("eds.set", "eds.add_section") for c_ in ast.walk(n))}
+
+    def _pred_of(e, depth=0):
+        """Name of the predicate that selects the indices of `e` from od: list(filter(p, od)), filter(p, od), [i for i in od if p(i)]."""
+        if depth > 3:
+            return None
+        if isinstance(e, ast.Name):
+            ds = [n for n in ast.walk(ex.node) if isinstance(n, ast.Assign) and src(n.targets[0]) == e.id]
+            return _pred_of(ds[0].value, depth + 1) if len(ds) == 1 else None
+        if isinstance(e, ast.Call) and src(e.func) in ("list", "sorted", "tuple") and len(e.args) == 1:
+            return _pred_of(e.args[0], depth + 1)
+        if isinstance(e, ast.Call) and dotted(e.func) == "filter" and len(e.args) == 2 and src(e.args[1]) == "od":
+            return src(e.args[0])
+        if isinstance(e, (ast.ListComp, ast.GeneratorExp)) and len(e.generators) == 1 and src(e.generators[0].iter) == "od" and len(e.generators[0].ifs) == 1 \
+                and isinstance(e.generators[0].target, ast.Name) and src(e.elt) == e.generators[0].target.id:
+            c_ = e.generators[0].ifs[0]
+            if isinstance(c_, ast.Call) and isinstance(c_.func, ast.Name) and [src(a) for a in c_.args] == [e.generators[0].target.id]:
+                return c_.func.id
+        return None
     lists = {}
-    for n in ast.walk(ex.node):
-        if isinstance(n, ast.Assign) and isinstance(n.value, ast.Call) and src(n.value.func) == "list" and n.value.args and isinstance(n.value.args[0], ast.Call) \
-                and dotted(n.value.args[0].func) == "filter" and src(n.value.args[0].args[1]) == "od":
-            lists[src(n.targets[0])] = src(n.value.args[0].args[0])
-    chk.check(len(lists) == 3 and set(lists.values()) <= set(preds), "R5", f"{E}:export_eds | three object lists filtered from od", ex.loc(), f"{lists}")
+    for c_ in [c for c in ast.walk(ex.node) if isinstance(c, ast.Call) and dotted(c.func) == "add_list" and len(c.args) == 2]:
+        lists[src(c_.args[1])] = _pred_of(c_.args[1])
+    chk.check(len(lists) == 3 and all(v in preds for v in lists.values()), "R5", f"{E}:export_eds | three object lists filtered from od", ex.loc(), f"{lists}")
     used = [preds[p] for p in lists.values() if p in preds]
     if len(used) == 3:
         lits = set()
@@ -209,7 +226,7 @@ def run(chk):
         for x in points:
             vals = []
             for p in used:
-                r = partial_eval(folder, p, mod, None, {"x": x}, preds)
+                r = partial_eval(folder, p, mod, None, {p.args.args[0].arg: x}, preds)
                 if r[0] != "return":
                     bad = ("unknown", f"{p.name}({x:#x}): {r}")
                     break
@@ -234,7 +251,7 @@ def run(chk):
         cnt = [c for c in ast.walk(a) if isinstance(c, ast.Call) and dotted(c.func) == "eds.set" and folder.try_fold(c.args[1], sc, None) == "SupportedObjects"]
         chk.check(len(cnt) == 1 and src(cnt[0].args[2]) == "len(list)", "R8", f"{E}:export_eds.add_list | SupportedObjects", ex.loc(a), "")
         calls = [(folder.try_fold(c.args[0], sc, None), src(c.args[1])) for c in ast.walk(ex.node) if isinstance(c, ast.Call) and dotted(c.func) == "add_list"]
-        chk.check(sorted(x[1] for x in calls) == sorted(lists), "R8", f"{E}:export_eds | all three lists written", ex.loc(), f"{calls}")
+        chk.check(sorted(x[1] for x in calls) == sorted(lists) and len(calls) == 3, "R8", f"{E}:export_eds | all three lists written", ex.loc(), f"{calls}")
     eo = [n for n in ast.walk(ex.node) if isinstance(n, ast.FunctionDef) and n.name == "export_object"]
     if eo:
         kinds = {src(i.test.args[1]): dotted(i.body[0].value.func) for i in eo[0].body if isinstance(i, ast.If) and isinstance(i.test, ast.Call) and isinstance(i.body[0], ast.Return)}
